@@ -89,11 +89,42 @@ CLAIMS = {
 NOT_YET = 'claimable clauses not built yet in this round; the rest of the property quantifies over thread schedules / liveness / kernel behaviour, which sequential function contracts cannot express (DESIGN.md section 7)'
 ALL = ['C%02d' % i for i in range(1, 21)]
 
+
+# later additions (kept apart so the original claim texts stay readable): appended to the claim text / replacing stale fragments of the notes
+ADD_TEXT = {
+ 'C01': 'runThisAfterLoop: the eventfd is closed once and no wake-up flag is left raised for the next run of the same loop.',
+ 'C03': 'SelectLoop::fillFdSets: a descriptor is in the read/write/except set handed to select() iff the loop holds enabled events of that kind for it (descriptor 0 included), nfds covers it.',
+ 'C04': 'CommonLoop::onSignal: the pipe is read in whole signal numbers and every subscriber of every number read is called exactly once.',
+ 'C05': 'ThreadPool::execute and the whole of WorkThread (execute, popOneTask, cancel with the order of the remaining tasks, worker loop, cleanup, guarded-by stop flag) are under contract as well.',
+ 'C06': 'TcpConnection and TcpServer: the buffered descriptor / the connection object is disabled, detached and destroyed only by a posted task, exactly once; a peer close is reported exactly once; sends after the close are refused.',
+ 'C07': 'hasRead / hasWritten are proved for ANY size (no wrap of index + size).',
+ 'C09': 'Sink (filter, handleLog, cached timestamp string, enable/disable order) and the AsyncSink back-end re-framing loop are under contract as well.',
+ 'C12': 'Server::Impl::commitRespond (order, once, nothing after the closing response) and Server::Impl::onTcpReceived (one context per request, the closing request is the last one, the read side stays open while a response is owed, clean drop on parse failure); the parser contract also states that a declared body is part of what is consumed.',
+ 'C13': 'Telnetd::Impl::onTcpReceived framing loop: bounds of every byte looked at, complete-negotiation-or-wait, progress (bounded domain: 64 pending bytes).',
+ 'C15': 'UdpSocket::onSocketEvent hands the receive callback only bytes that recvfrom stored; Deserializer::checkSize / setEndian are under contract.',
+ 'C18': 'Condition<int>, Broadcast and the Scheduler bookkeeping around the context switches (makeRoutineReady, resume, cancel, switchToRoutine, wait, yield, join; swapcontext as a direction-specific stub) are under contract as well.',
+}
+FIX_NOTE = {
+ 'C01': ('Interleavings, thread identity and shutdown draining are not decided.', 'Interleavings, thread identity, shutdown draining (cleanupDeferredTasks) and runThisBeforeLoop are not decided.'),
+ 'C03': ('The select event class, fillFdSets and shared-record reference counting are not under contract.', 'The select event class, removeInvalidFds and shared-record reference counting are not under contract; select(2) descriptors are assumed < FD_SETSIZE.'),
+ 'C05': ('Interleavings, liveness and WorkThread are not decided', 'Interleavings and liveness are not decided'),
+ 'C06': ('Read path and the TCP classes are not covered', 'The read path (attempted; the harness is beyond the installed solvers, DESIGN I.8) and acceptor/connector/client are not covered'),
+ 'C09': ('Sink level filter, back-end re-framing, file roll-over and interleavings are not decided.', 'Record formatting, file roll-over and interleavings are not decided.'),
+ 'C12': ('and the rest of the server pipeline (onTcpReceived, connection close) are not decided', 'and onTcpSendCompleted / the handler chain are not decided; at most 10^9 bytes pending per receive call'),
+ 'C13': ('telnet negotiation (telnetd.cpp), ', 'content-level telnet framing, '),
+ 'C15': ('DnsRequest::onUdpRecv / request / cancel bookkeeping (std::map, callbacks) is not under contract', 'DnsRequest::onUdpRecv / request / cancel bookkeeping (std::map, callbacks) is not under contract (onUdpRecv was attempted; the harness is beyond the installed solvers, DESIGN I.8)'),
+ 'C18': ('The scheduler, Condition/Broadcast and the whole-run induction are not covered.', 'Scheduler::schedule / cleanup / create, the context switch itself and the whole-run induction are not covered.'),
+}
+
 def main():
     checks = []
     for pid in ALL:
         if pid not in CLAIMS: continue
         cat, text, note, tech, ref = CLAIMS[pid]
+        if pid in ADD_TEXT: text = text.rstrip() + ' Added later: ' + ADD_TEXT[pid]
+        if pid in FIX_NOTE:
+            assert FIX_NOTE[pid][0] in note, pid
+            note = note.replace(FIX_NOTE[pid][0], FIX_NOTE[pid][1])
         checks.append({
             'property_id': pid,
             'quick_cmd': './check %s --tier quick' % pid,
